@@ -64,7 +64,7 @@ class Interp:
             avail = [g[0] for g in gates]
             if not avail:
                 typ = 'ALWAYS_TRUE' if t % 2 else 'ALWAYS_FALSE'
-            ar = _arity(typ, x + y)
+            ar = _arity(typ, x + y) if avail else 0
             ops = [avail[(x + q * (y + 1)) % len(avail)] for q in range(ar)]
             gates.append([f'a{self.fresh}_g{k}', typ, ops])
         outs = [gates[(o) % len(gates)][0] for o in op.get('oo', [])] if gates else []
@@ -94,7 +94,7 @@ class Interp:
                     labs = self._labels(work)
                     if not labs and typ not in refsem.CONST:
                         typ = 'ALWAYS_TRUE'
-                    ar = _arity(typ, op['a'])
+                    ar = _arity(typ, op['a']) if labs else 0
                     operands = tuple(labs[(op['x'] + q * (op['y'] + 1)) % len(labs)] for q in range(ar)) if ar else ()
                     if op.get('absent_operand') and ar:
                         operands = ('__absent__',) + operands[1:]
@@ -153,6 +153,32 @@ class Interp:
                     work.replace_inputs(t, f)
                     t.append('__junk__')
                     f.append('__junk__')
+                elif name == 'own_lists':
+                    # the circuit's own live lists as arguments (c.set_outputs(c.inputs), c.replace_inputs(c.inputs, []) ...)
+                    v = op['v'] % 10
+                    labs = self._labels(work)
+                    if v == 0:
+                        work.set_outputs(work.inputs)
+                    elif v == 1:
+                        work.set_outputs(work.outputs)
+                    elif v == 2:
+                        work.set_inputs(work.inputs)
+                    elif v == 3:
+                        work.order_inputs(work.inputs)
+                    elif v == 4:
+                        work.order_outputs(work.outputs)
+                    elif v == 5:
+                        work.replace_inputs(work.inputs, [])
+                    elif v == 6:
+                        work.replace_inputs([], work.inputs)
+                    elif v == 7:
+                        gs = list(dict.fromkeys(list(work.outputs) + ([labs[op['x'] % len(labs)]] if labs else [])))
+                        work.make_block(op.get('name', 'B'), gs, work.outputs, work.inputs if op['x'] % 2 else None)
+                    elif v == 8:
+                        work.make_block_from_slice(op.get('name', 'S'), work.inputs, work.outputs)
+                    else:
+                        other = build.build(self._small_netlist(op))
+                        work.connect_circuit(other, work.outputs, other.inputs, name=op.get('name', ''))
                 elif name == 'connect':
                     if op.get('from_pool'):
                         other = copy.deepcopy(self.pool[op['j'] % POOL])
@@ -402,6 +428,11 @@ def make_machine(tier, hooks):
         @rule(c=I, x=I, remove=st.booleans())
         def drop_block(self, c, x, remove):
             self._do({'op': 'remove_block' if remove else 'delete_block', 'c': c, 'x': x})
+
+        @rule(c=I, v=I, x=I, name=st.sampled_from(['B', 'N', 'S', '']), on=I, og=st.lists(st.tuples(I, I, I).map(list), max_size=3),
+              oo=st.lists(I, max_size=2))
+        def own_lists(self, c, v, x, name, on, og, oo):
+            self._do({'op': 'own_lists', 'c': c, 'v': v, 'x': x, 'name': name, 'on': on, 'og': og, 'oo': oo})
 
         @rule(c=I, seed=I)
         def into_bench(self, c, seed):
